@@ -271,7 +271,7 @@ def term_str(v):
     if k == 'se':
         return '%s?%s' % (v[1], term_str(v[2]))
     if k == 'ref':
-        return '&%s%s' % (v[1], ''.join('.%s%d' % p for p in v[2]))
+        return '&%s%s' % (v[1], ''.join('.%s%s' % (p[0], '_'.join(str(q) for q in p[1:])) for p in v[2]))
     if k == 'op':
         return 'opaque<%s>' % v[1]
     if k == 'dyn':
@@ -318,6 +318,13 @@ SHIM_MAP = {
     "<core::slice::IterMut<'a, T> as core::iter::Iterator>::next": 'iter_mut_next',
     'core::array::iter::<impl core::iter::IntoIterator for [T; N]>::into_iter': 'array_into_iter',
     'core::char::CaseMappingIter::new': 'case_mapping_iter_new',
+    'core::slice::<impl [T]>::windows': 'slice_windows',
+    "<core::slice::Windows<'a, T> as core::iter::Iterator>::next": 'windows_next',
+    'core::slice::<impl [T]>::chunks': 'slice_chunks',
+    "<core::slice::Chunks<'a, T> as core::iter::Iterator>::next": 'chunks_next',
+    'core::slice::<impl [T]>::chunks_exact': 'slice_chunks_exact',
+    "<core::slice::ChunksExact<'a, T> as core::iter::Iterator>::next": 'chunks_exact_next',
+    "core::slice::ChunksExact::<'a, T>::remainder": 'chunks_exact_remainder',
     'core::str::<impl str>::chars': 'str_chars',
     "<core::str::Chars<'a> as core::iter::Iterator>::nth": 'chars_nth',
     "<core::str::Chars<'a> as core::iter::Iterator>::count": 'chars_count',
